@@ -2,14 +2,10 @@
     loop with conditional assembly and macro recording, and the parse-time effects of directives.
     File inclusion goes through an abstract file system (Model/Fs.v supplies it). *)
 Require Import AvraV.Model.Base AvraV.Model.Ast AvraV.Model.Device AvraV.Model.Eval AvraV.Model.Grammar AvraV.Model.Lines.
-Require Import AvraV.Model.Show AvraV.Gen.Devices.
+Require Import AvraV.Model.Show AvraV.Model.Fs AvraV.Gen.Devices.
 Open Scope N_scope.
 
 Inductive next_item := NewLine | EndIf | EndIfAll | EndMacro | EndFile.
-
-(** an abstract file system, as far as the assembler looks at it: a path either names a readable
-    file (its text) or not; paths are strings, joined with "/" *)
-Record fsys := { fs_read : str -> option str }.
 
 Record pstate := {
   segs : list segment;                         (* in order of creation; the last one is current *)
@@ -17,21 +13,24 @@ Record pstate := {
   macros : list (str * list (N * str));        (* name -> body lines (0-based line index, text) *)
   msgs : list str;
   pcx : ctx;                                   (* equs, defines, device (shared CommonContext) *)
+  fl : flayer;                                 (* current_path and include_paths of the ParseContext *)
 }.
 
 Definition seg_new (t : segt) : segment := {| items := []; seg_t := t; address := 0 |}.
 Definition pstate_new (c : ctx) : pstate :=
-  {| segs := [seg_new SCode]; macro_name := []; macros := []; msgs := []; pcx := c |}.
+  {| segs := [seg_new SCode]; macro_name := []; macros := []; msgs := []; pcx := c; fl := fl_empty |}.
 
 Definition upd_last (f : segment -> segment) (l : list segment) : list segment :=
   match rev l with [] => [] | x :: r => rev (f x :: r) end.
 Definition last_seg (st : pstate) : segment := match rev (segs st) with x :: _ => x | [] => seg_new SCode end.
 Definition with_segs (st : pstate) (l : list segment) : pstate :=
-  {| segs := l; macro_name := macro_name st; macros := macros st; msgs := msgs st; pcx := pcx st |}.
+  {| segs := l; macro_name := macro_name st; macros := macros st; msgs := msgs st; pcx := pcx st; fl := fl st |}.
 Definition with_ctx (st : pstate) (c : ctx) : pstate :=
-  {| segs := segs st; macro_name := macro_name st; macros := macros st; msgs := msgs st; pcx := c |}.
+  {| segs := segs st; macro_name := macro_name st; macros := macros st; msgs := msgs st; pcx := c; fl := fl st |}.
+Definition with_fl (st : pstate) (f : flayer) : pstate :=
+  {| segs := segs st; macro_name := macro_name st; macros := macros st; msgs := msgs st; pcx := pcx st; fl := f |}.
 Definition with_msgs (st : pstate) (m : list str) : pstate :=
-  {| segs := segs st; macro_name := macro_name st; macros := macros st; msgs := m; pcx := pcx st |}.
+  {| segs := segs st; macro_name := macro_name st; macros := macros st; msgs := m; pcx := pcx st; fl := fl st |}.
 Definition push_item (st : pstate) (cp : N * N) (it : item) : pstate :=
   with_segs st (upd_last (fun s => {| items := (items s ++ [(cp, it)])%list; seg_t := seg_t s; address := address s |}) (segs st)).
 Definition add_segment (st : pstate) (s : segment) : pstate := with_segs st (segs st ++ [s])%list.
@@ -144,7 +143,11 @@ Definition directive_parse (d : directive) (ops : dops) (st : pstate) (line : N)
       end
   | DIncludePath =>
       match first_op ops with
-      | Some (Some (PS path)) => Ok (st, NewLine)          (* refined by the file layer *)
+      | Some (Some (PS t)) =>
+          let p := components t in
+          let q := if is_abs p then p
+                   else join (match parent (cur_path (fl st)) with Some d => d | None => [] end) p in
+          Ok (with_fl st {| cur_path := cur_path (fl st); ipaths := set_insert q (ipaths (fl st)) |}, NewLine)
       | _ => err
       end
   | DIf | DElIf =>
@@ -179,7 +182,7 @@ Definition directive_parse (d : directive) (ops : dops) (st : pstate) (line : N)
   | DMacro =>
       match first_op ops with
       | Some (Some (PE (EIdent name))) =>
-          Ok ({| segs := segs st; macro_name := lower name; macros := macros st; msgs := msgs st; pcx := pcx st |}, EndMacro)
+          Ok ({| segs := segs st; macro_name := lower name; macros := macros st; msgs := msgs st; pcx := pcx st; fl := fl st |}, EndMacro)
       | _ => err
       end
   | DCSegSize => Ok (st, NewLine)
@@ -262,7 +265,7 @@ Fixpoint parse_iter (g : nat) (ls : lines) (skipped : bool) (st : pstate) : res 
                   let '(body, r') := skip_macro r [] in
                   parse_iter g' r' false
                     {| segs := segs st2; macro_name := macro_name st2;
-                       macros := insert (macro_name st2) body (macros st2); msgs := msgs st2; pcx := pcx st2 |}
+                       macros := insert (macro_name st2) body (macros st2); msgs := msgs st2; pcx := pcx st2; fl := fl st2 |}
               end
           end
       end
